@@ -940,8 +940,10 @@ class Vector():
 
 	def _unary_operation(self, op_func, op_name: str):
 		"""Helper function to handle unary operations on each element."""
+		# None propagates, as in binary operations
+		result_values = tuple(None if x is None else op_func(x) for x in self)
 		return Vector(
-			tuple(op_func(x) for x in self),
+			result_values,
 			dtype=self._dtype,
 			name=self._name,
 			as_row=self._display_as_row
@@ -969,7 +971,7 @@ class Vector():
 		# For boolean vectors, use logical NOT instead of bitwise NOT
 		if self._dtype and self._dtype.kind is bool:
 			return Vector(
-				tuple(not x for x in self),
+				tuple(None if x is None else (not x) for x in self),
 				dtype=self._dtype,
 				name=self._name,
 				as_row=self._display_as_row
